@@ -45,6 +45,17 @@ func ruleLK1(c *Ctx) {
 		}
 		acquires = append(acquires, call)
 	}
+	// the acquiring Flock may live in a small wrapper (tryFlock(fd, lockType) error): `raw` is the Flock call itself,
+	// rawFn the function it is in, rawEnv binds the wrapper's parameters to the arguments of its call in lp
+	rawOf := map[ssa.CallInstruction]*ssa.Call{}
+	for _, call := range callsIn(lp) {
+		if h := call.Common().StaticCallee(); h != nil && c.InModule(h) {
+			if raw := c.F.acquireWrapper(h); raw != nil {
+				acquires = append(acquires, call)
+				rawOf[call] = raw
+			}
+		}
+	}
 	// callback invocation(s)
 	var cbCalls []ssa.CallInstruction
 	var cbParam *ssa.Parameter
@@ -62,7 +73,18 @@ func ruleLK1(c *Ctx) {
 		c.bad(name, "a:single-nonblocking-acquire", c.FnPos(lp), fmt.Sprintf("%d acquiring Flock calls, expected exactly 1", len(acquires)))
 	} else {
 		acq := acquires[0]
-		op := resolve(acq.Common().Args[1])
+		rawEnv := env{}
+		var rawArgs []ssa.Value = acq.Common().Args
+		if raw := rawOf[acq]; raw != nil {
+			h := raw.Parent()
+			for i, prm := range h.Params {
+				if i < len(acq.Common().Args) {
+					rawEnv[prm] = acq.Common().Args[i]
+				}
+			}
+			rawArgs = raw.Call.Args
+		}
+		op := resolve(rawArgs[1])
 		okNB := false
 		why := ""
 		switch x := op.(type) {
@@ -75,9 +97,9 @@ func ruleLK1(c *Ctx) {
 					other = x.Y
 				}
 				if other != nil {
-					if _, isParam := resolve(other).(*ssa.Parameter); isParam {
+					if prm, isParam := resolveEnv(other, rawEnv).(*ssa.Parameter); isParam && prm.Parent() == lp {
 						okNB = true
-					} else if k, ok := constInt(other); ok && k != LOCK_UN {
+					} else if k, ok := constInt(resolveEnv(other, rawEnv)); ok && k != LOCK_UN {
 						okNB = true
 					} else {
 						why = "lock type operand is neither the lock-type parameter nor a constant"
@@ -108,6 +130,23 @@ func ruleLK1(c *Ctx) {
 		c.bad(name, "c:callback-after-acquire", c.FnPos(lp), "acquire is deferred or spawned")
 		return
 	}
+	// the Flock call itself and the function it lives in
+	raw, rawFn := acq, lp
+	if r := rawOf[acquires[0]]; r != nil {
+		raw, rawFn = r, r.Parent()
+		// wrapper soundness: it reports success only when Flock succeeded
+		rawOK := edgesWhere(rawFn, func(a Atom, holds bool) bool {
+			return a.Kind == "nil" && strip(a.X) == ssa.Value(raw) && holds
+		})
+		sound := true
+		for _, r := range c.nonFailingReturns(rawFn) {
+			if !mustPassEdges(rawFn, r.Block(), rawOK) {
+				sound = false
+			}
+		}
+		c.check(sound, name, "c:acquire-wrapper-faithful", c.Pos(raw.Pos()), c.Name(rawFn)+" returns nil only on the Flock-success edge",
+			c.Name(rawFn)+" can return nil although Flock failed: the callback would run without the lock")
+	}
 	// (b) busy mapping
 	errEdges := edgesWhere(lp, func(a Atom, holds bool) bool {
 		return a.Kind == "nil" && strip(a.X) == ssa.Value(acq) && !holds
@@ -127,12 +166,12 @@ func ruleLK1(c *Ctx) {
 		if call == nil || calleeFullName(&call.Call) != "errors.Is" {
 			return false
 		}
-		if resolveEnv(strip(call.Call.Args[0]), a.Env) != ssa.Value(acq) && strip(resolveEnv(call.Call.Args[0], a.Env)) != ssa.Value(acq) {
+		if resolveEnv(strip(call.Call.Args[0]), a.Env) != ssa.Value(raw) && strip(resolveEnv(call.Call.Args[0], a.Env)) != ssa.Value(raw) {
 			return false
 		}
 		return strings.Contains(call.Call.Args[1].Type().String(), "error")
 	}
-	for _, bf := range branchFacts(lp) {
+	for _, bf := range branchFacts(rawFn) {
 		if bf.Derived || !bf.Holds {
 			continue
 		}
@@ -171,6 +210,12 @@ func ruleLK1(c *Ctx) {
 	dom := mustPassEdges(lp, cb.Block(), okEdges)
 	fdOK, fdWhy := true, ""
 	fdArg := acq.Call.Args[0]
+	if raw != acq {
+		// the wrapper's descriptor parameter, as bound at its call in lp
+		if prm, ok := resolve(raw.Call.Args[0]).(*ssa.Parameter); ok && paramIndex(prm) < len(acq.Call.Args) {
+			fdArg = acq.Call.Args[paramIndex(prm)]
+		}
+	}
 	var fdCell *ssa.Alloc
 	if u, ok := fdArg.(*ssa.UnOp); ok && u.Op == token.MUL {
 		fdCell = cellOf(u.X)
